@@ -1,4 +1,6 @@
 import Secp.Proofs.ScalarCmp
+import Secp.Proofs.ScalarApiTiesTests
+import Secp.Proofs.ScalarApiTiesSelect
 /-!
 # C13 — scalar comparisons and conditional selection follow integer semantics
 
